@@ -264,7 +264,11 @@ fn main_inner() -> Result<(), RunError> {
             }
         }
     } else {
-        match std::io::stdout().write_all(output.as_bytes()) {
+        let mut stdout = std::io::stdout();
+        match stdout
+            .write_all(output.as_bytes())
+            .and_then(|()| stdout.flush())
+        {
             Ok(()) => {}
             Err(e) => {
                 eprintln!("failed to write to stdout: {e}");
